@@ -522,26 +522,39 @@ func (w *World) exec(op *Op) (done bool) {
 		if h.closed {
 			return true
 		}
-		c, _ := w.collFor(h, op.C, false)
-		if c == nil {
-			return true
-		}
 		n := op.N
 		if n <= 0 {
 			n = 1
 		}
+		var targets []*g.Collection
+		if op.Flag == 1 { // burst over every collection
+			for _, name := range h.m.Names() {
+				if c := h.st.GetCollection(name); c != nil {
+					targets = append(targets, c)
+				}
+			}
+		} else if c, _ := w.collFor(h, op.C, false); c != nil {
+			targets = append(targets, c)
+		}
 		total := uint64(0)
 		ok := true
-		for i := 0; i < n && ok; i++ {
-			ok = w.call("EvictSomeItems", false, func() error {
-				total += c.EvictSomeItems()
-				return nil
-			})
+		for _, c := range targets {
+			c := c
+			for i := 0; i < n && ok; i++ {
+				ok = w.call("EvictSomeItems", false, func() error {
+					total += c.EvictSomeItems()
+					return nil
+				})
+			}
 		}
 		if total > 0 {
 			w.ev["evicted_items"] += int(total)
 			w.ev["evict_effective"]++
-			w.noteCache(op.C)
+			if op.Flag == 1 {
+				w.noteCacheAll()
+			} else {
+				w.noteCache(op.C)
+			}
 		}
 		if !ok {
 			return false
